@@ -72,7 +72,10 @@ func (c *Check) add(rule, key string, st Status, witness, pos string) *Obligatio
 	if r := c.ruleIdx[rule]; r != nil {
 		r.Count++
 	} else {
-		panic("obligation for undeclared rule " + rule)
+		// an anchor lookup that fails before its rule was declared (the construct the rule reads is gone):
+		// the obligation is kept — undecided obligations fail the check — under an implicitly declared rule
+		c.Rule(rule, "(declared implicitly: an anchor of this rule could not be resolved before the rule ran)", 0)
+		c.ruleIdx[rule].Count++
 	}
 	return o
 }
